@@ -39,7 +39,8 @@ Names == {TypeTable[i].name : i \in 1..Len(TypeTable)}
 ASSUME Len(TypeTable) = 37 /\ Cardinality(Codes) = 37 /\ Cardinality(Names) = 37         \* codes and names map one-to-one
 Types == Codes \cup {0}
 Classes == {"zero", "one", "many", "wide", "max"}
-Lies == {"w3", "w5", "w9", "w9max"}       \* a count of 65535, 2^32-1, 2^63, 2^64-1 in its canonical varint width
+Lies == {"w3", "w5", "w9", "w9max",       \* a count of 65535, 2^32-1, 2^63, 2^64-1 in its canonical varint width
+         "w5p27", "w9p59"}                 \* 2^27 and 2^59: counts whose product with an element size of 32 wraps at 2^32 / 2^64
 
 VARIABLES w,       \* what was written: sequence of [t, c, n]
           r,       \* number of messages read
